@@ -304,8 +304,9 @@ static JanetSlot janetc_varset(JanetFopts opts, int32_t argn, const Janet *argv)
         JanetSlot ds = janetc_value(subopts, tup[0]);
         JanetSlot key = janetc_value(subopts, tup[1]);
         /* Can't be tail position because we will emit a PUT instruction afterwards */
-        /* Also can't drop either */
-        opts.flags &= ~(JANET_FOPTS_TAIL | JANET_FOPTS_DROP);
+        /* Also can't drop either. A hint must not be honoured: the hinted slot may be
+         * a variable that ds or key still read. */
+        opts.flags &= ~(JANET_FOPTS_TAIL | JANET_FOPTS_DROP | JANET_FOPTS_HINT);
         JanetSlot rvalue = janetc_value(opts, argv[1]);
         /* Emit the PUT instruction */
         janetc_emit_sss(opts.compiler, JOP_PUT, ds, key, rvalue, 0);
